@@ -170,7 +170,17 @@ impl Tokenizer for VaporettoTokenizer {
 
         // pre filter
         let prefiltered_text = self.prefilter.filter(text);
-        let mut s = Sentence::from_raw(prefiltered_text).unwrap();
+        let Ok(mut s) = Sentence::from_raw(prefiltered_text) else {
+            // The text cannot be analyzed (it contains a NUL character):
+            // the whole text is emitted as a single token.
+            return VaporettoTokenStream {
+                text,
+                token: Token::default(),
+                boundary_pos: vec![text.len()],
+                offset_to: 0,
+                position: 0,
+            };
+        };
 
         // tokenize
         self.predictor.predict(&mut s);
